@@ -553,11 +553,11 @@ func c11BlockedFrame(marker string) string {
 		}
 		for _, f := range g.Frames {
 			if c11IsRepoFrame(f) {
-				return c11ShortFn(f) + " [" + g.State + "]"
+				return c11ShortFn(f)
 			}
 		}
 		if len(g.Frames) > 0 {
-			return g.Frames[0] + " [" + g.State + "]"
+			return g.Frames[0]
 		}
 	}
 	return "?"
